@@ -27,7 +27,8 @@ from vf.core import ob
 PROP = "C11"
 
 # ---------------------------------------------------------------------------
-# the four species of the property (+ one topology that can never match)
+# the four species of the property (+ one topology that can never match, + two species with
+# restarted / constant topology residue numbers used by the second alphabet and the random systems)
 #
 # residue kind = (resname, atom names); the signature seen by System is
 # (resname, number of atoms).  All signatures below are distinct by resname and
@@ -39,6 +40,10 @@ KINDS = {
     "X": ["X1", "X2"],
     "Y": ["Y1", "Y2", "Y3"],
     "SOL": ["OW", "HW1", "HW2"],
+    "DA": ["D1", "D2"],
+    "DB": ["D3"],
+    "CA": ["C1"],
+    "CB": ["C2", "C3"],
 }
 
 # key -> (molecule name in the topology, residue kinds, residue numbers used in the
@@ -49,9 +54,16 @@ SPECIES = {
     "S3": ("TRI", ["X", "Y", "X"], [1, 2, 4], [0, 2, 3]),    # multi-residue, internal repeat, gapped numbers
     "W": ("WAT", ["SOL"], [1], [0]),                         # solvent: in the file, topology never loaded
     "YY": ("DIY", ["Y", "Y"], [1, 2], [0, 1]),               # never in a file: Y,Y is not a run of any file
+    # repeated residues that share the SAME topology residue number with another residue in between
+    "S4": ("DIM", ["DA", "DB", "DA", "DB"], [1, 2, 1, 2], [0, 1, 2, 3]),   # numbering restarts in a dimer
+    "S5": ("TRC", ["CA", "CB", "CA"], [1, 1, 1], [0, 1, 2]),               # one topology number for all residues
 }
-FILE_SPECIES = ["S1", "S2", "S3", "W"]
+FILE_SPECIES = ["S1", "S2", "S3", "W"]          # alphabet A (the property's four species)
 LOADABLE = ["S1", "S2", "S3"]
+FILE_SPECIES_B = ["S4", "S5", "S2", "W"]        # alphabet B: restarted / constant topology residue numbers
+ALPHABETS = {"A": FILE_SPECIES, "B": FILE_SPECIES_B}
+ALL_FILE_SPECIES = ["S1", "S2", "S3", "S4", "S5", "W"]
+ALL_LOADABLE = ["S1", "S2", "S3", "S4", "S5"]
 
 CLAUSES = {
     "constructs": "System.__init__/ensures.accepts_topologies_of_present_species",
@@ -64,6 +76,7 @@ CLAUSES = {
     "index_error": "System.__getitem__/ensures.index_error_outside_range",
     "slices": "System.__getitem__/ensures.slices_agree_with_file_order",
     "refuses": "System.add_molecule_top/ensures.refuses_topology_without_matching_run",
+    "loads": "System.add_molecule_top/ensures.accepts_topology_of_present_species_after_reads",
     "invariant": "System/internal-invariant.blocks_sorted_disjoint_in_range_consumed_marked",
 }
 
@@ -84,6 +97,13 @@ EXH_GROUPS = [
     ("index-neg", ("int<0",)),
     ("index-error", ("index_error",)),
 ] + [("slices-" + g, ("slices:" + g,)) for g in SLICE_GROUPS]
+
+# history family (read, then load another topology, re-check): coarser groups
+HIST_GROUPS = [
+    ("state", ("iter", "len", "composition", "invariant", "refuses")),
+    ("index", ("int>=0", "int<0", "index_error")),
+    ("slices", tuple("slices:" + g for g in SLICE_GROUPS)),
+]
 
 
 def info(prop):
@@ -118,7 +138,14 @@ def info(prop):
                         "topology whose residue kinds are in the file but never as a run.  Each task evaluates one clause "
                         "group over the whole scope, so a clause has one obligation per scope family.  Plus: files of solvent "
                         "only (empty System), seeded random longer systems (7..24 quick / 7..60 thorough molecules, runs of "
-                        "equal molecules), and the shipped BMIM/BF4 box (300+300) in both loading orders against an "
+                        "equal molecules, over all six file species), a second exhaustive alphabet (restarted-resnr: DIM = "
+                        "(DA,1)(DB,2)(DA,1)(DB,2), TRC = (CA,1)(CB,1)(CA,1), one-atom ION, solvent; <=3 quick / <=5 thorough) "
+                        "whose repeated residues share one topology residue number with another residue in between, a "
+                        "history family (every sequence <=3 quick / <=5 thorough, every loading order, every split point k "
+                        "incl. 0: System(fgro, *first_k), all clauses evaluated (reads through every access route), then the "
+                        "remaining topologies loaded one by one with add_ftop / add_molecule_top(MoleculeTop(..)), all "
+                        "clauses re-evaluated against the oracle after each load; System[-1] of a still empty System is left "
+                        "to the solvent-only obligation), and the shipped BMIM/BF4 box (300+300) in both loading orders against an "
                         "independent fixed-column parse (int indices: every 7th plus both ends).  The class invariant of the "
                         "private block list is an extra obligation labelled internal-invariant (undecided if the private "
                         "layout changes).  Nothing is deductive."),
@@ -287,7 +314,7 @@ class Result:
         self.harness.setdefault(clause, msg)
 
 
-def check_system(s, exp, records, res, only=None, index_stride=1):
+def check_system(s, exp, records, res, only=None, index_stride=1, skip_empty_last=False):
     """Evaluate the public-API clauses of the statement on a constructed System ``s``.
 
     ``exp``: expected fingerprints in file order (oracle); ``records``: the file's atom records
@@ -412,6 +439,8 @@ def check_system(s, exp, records, res, only=None, index_stride=1):
                     exc=type(e).__name__)
     # --- IndexError outside
     for i in (R, R + 1, R + 5, -R - 1, -R - 2) if sel("index_error") else ():
+        if skip_empty_last and R == 0 and i == -1:
+            continue     # System[-1] of an empty System: evaluated (once) by the solvent-only family
         try:
             m = s[i]
             res.bad("index_error", f"System[{i}] returns {_short(fingerprint(m))} although {what} has {R} molecules",
@@ -517,7 +546,7 @@ def run_case(files, seq, order, res, absent=None, fresh_absent=False, only=None,
     if exp is None:
         exp = expected_molecules(records, instances, set(order))
     if absent is None:
-        absent = [k for k in LOADABLE if k not in seq] + ["YY"]
+        absent = [k for k in ALL_LOADABLE if k not in seq] + ["YY"]
     System = _System()
     try:
         try:
@@ -561,17 +590,17 @@ def run_case(files, seq, order, res, absent=None, fresh_absent=False, only=None,
 # scope enumeration
 
 
-def sequences(maxlen):
-    """All sequences of 1..maxlen molecules over the 4 species with at least one loadable species
-    (solvent-only files are a task of their own)."""
+def sequences(maxlen, alphabet="A"):
+    """All sequences of 1..maxlen molecules over the 4 species of the alphabet with at least one loadable
+    species (solvent-only files are a task of their own)."""
     for n in range(1, maxlen + 1):
-        for seq in itertools.product(FILE_SPECIES, repeat=n):
+        for seq in itertools.product(ALPHABETS[alphabet], repeat=n):
             if any(k != "W" for k in seq):
                 yield list(seq)
 
 
 def orders(seq):
-    present = [k for k in LOADABLE if k in seq]
+    present = [k for k in ALL_LOADABLE if k in seq]
     return [list(p) for p in itertools.permutations(present)]
 
 
@@ -621,7 +650,10 @@ class Family:
                 out.append(ob(oid, "refuted", kind="bounded", engine="smallscope", backend="runtime-contract",
                               secs=self.secs / max(1, len(self.evals)),
                               reason=f"{self.nfail[c]} case(s) violate the clause; first: seq={cex.get('seq')} "
-                                     f"order={cex.get('order')}: {msg}",
+                                     f"order={cex.get('order')}"
+                                     + (f" constructed with the first {cex['split']} topologies, read, then {cex['via']} one "
+                                        f"by one; after {cex['loaded_when_checked']} loaded" if cex.get("kind") == "history" else "")
+                                     + f": {msg}",
                               cex=cex, sample=self.sample, evaluations=self.evals[c], nontrivial=self.nontrivial[c]))
             elif c in self.harness:
                 out.append(ob(oid, "undecided", kind="bounded", engine="smallscope", backend="runtime-contract",
@@ -633,15 +665,16 @@ class Family:
         return out
 
 
-def task_exhaustive(maxlen, group, part, nparts, seed):
+def task_exhaustive(maxlen, group, part, nparts, seed, alphabet="A"):
     """The clause group ``group`` of EXH_GROUPS evaluated on every (sequence, loading order) of the scope
     (or on the part ``part`` of ``nparts`` of the sequences, thorough tier)."""
     only = dict(EXH_GROUPS)[group]
-    fam = Family(f"seq<={maxlen}" + (f".part{part:02d}of{nparts}" if nparts > 1 else ""))
+    fam = Family(("" if alphabet == "A" else "restarted-resnr.") + f"seq<={maxlen}"
+                 + (f".part{part:02d}of{nparts}" if nparts > 1 else ""))
     files = Files()
     t0 = time.time()
     try:
-        for idx, seq in enumerate(sequences(maxlen)):
+        for idx, seq in enumerate(sequences(maxlen, alphabet)):
             if idx % nparts != part:
                 continue
             records, instances = build_records(seq)
@@ -653,6 +686,95 @@ def task_exhaustive(maxlen, group, part, nparts, seed):
                     run_case(files, seq, order, res, fresh_absent=(oi == 0), only=only, records=records,
                              instances=instances, fgro=fgro, exp=exp)
                     fam.add(res, {"kind": "generated", "seq": seq, "order": order}, nontrivial=len(exp) >= 2)
+            finally:
+                files.drop(fgro)
+    finally:
+        files.close()
+    fam.secs = time.time() - t0
+    return fam.obligations()
+
+
+def run_history(files, seq, order, split, via, only, on_stage, records=None, instances=None, fgro=None):
+    """History "read, then load another topology": System(fgro, *order[:split]); evaluate the clauses (this
+    reads through every access route); then load order[split:] one by one with add_ftop (via="add_ftop") or
+    add_molecule_top(MoleculeTop(ftop)) (via="add_molecule_top"), re-evaluating every clause against the
+    oracle after each load.  ``on_stage(n_loaded, Result)`` receives the verdicts of each stage."""
+    own = fgro is None
+    if records is None:
+        records, instances = build_records(seq)
+    if fgro is None:
+        fgro = files.gro(records)
+
+    def sel(k):
+        return only is None or k in only
+
+    System = _System()
+    try:
+        res = Result()
+        try:
+            with contextlib.redirect_stdout(io.StringIO()):
+                s = System(fgro, *[files.ftops[k] for k in order[:split]])
+            if sel("iter"):
+                res.ok("constructs")
+        except Exception as e:
+            if sel("iter"):
+                res.bad("constructs", f"System(fgro, {', '.join(order[:split])}) raises {_exc(e)} although every loaded "
+                                      f"species has instances in the file", exc=type(e).__name__)
+            on_stage(split, res)
+            return
+        for n in range(split, len(order) + 1):
+            if n > split:
+                res = Result()
+                key = order[n - 1]
+                try:
+                    with contextlib.redirect_stdout(io.StringIO()):
+                        if via == "add_ftop":
+                            s.add_ftop(files.ftops[key])
+                        else:
+                            from gaddlemaps.components import MoleculeTop
+                            s.add_molecule_top(MoleculeTop(files.ftops[key]))
+                    if sel("iter"):
+                        res.ok("loads")
+                except Exception as e:
+                    if sel("iter"):
+                        res.bad("loads", f"{via} of the {SPECIES[key][0]} topology after loading {order[:n - 1]} and reading "
+                                         f"raises {_exc(e)} although the file holds instances of it", exc=type(e).__name__)
+                    on_stage(n, res)
+                    return
+            loaded = set(order[:n])
+            exp = expected_molecules(records, instances, loaded)
+            with contextlib.redirect_stdout(io.StringIO()):
+                check_system(s, exp, records, res, only=only, skip_empty_last=True)
+            if sel("invariant"):
+                check_invariant(s, instances, loaded, res)
+            if sel("refuses") and n == len(order):
+                check_refuses(s, files.ftops, [k for k in ALL_LOADABLE if k not in seq] + ["YY"], res)
+            on_stage(n, res)
+        del s
+    finally:
+        if own:
+            files.drop(fgro)
+
+
+def task_history(maxlen, via, group, part, nparts, seed):
+    only = dict(HIST_GROUPS)[group]
+    fam = Family(f"history.read-then-{via}.seq<={maxlen}" + (f".part{part:02d}of{nparts}" if nparts > 1 else ""))
+    files = Files()
+    t0 = time.time()
+    try:
+        for idx, seq in enumerate(sequences(maxlen, "A")):
+            if idx % nparts != part:
+                continue
+            records, instances = build_records(seq)
+            fgro = files.gro(records)
+            try:
+                for order in orders(seq):
+                    for split in range(len(order)):       # split == len(order) is the plain exhaustive family
+                        def on_stage(n, res, order=order, split=split):
+                            fam.add(res, {"kind": "history", "seq": seq, "order": order, "split": split, "via": via,
+                                          "loaded_when_checked": n}, nontrivial=n > split)
+                        run_history(files, seq, order, split, via, only, on_stage, records=records,
+                                    instances=instances, fgro=fgro)
             finally:
                 files.drop(fgro)
     finally:
@@ -683,13 +805,13 @@ def random_system(rng, lo, hi):
     mode = rng.randrange(3)
     seq = []
     while len(seq) < n:
-        k = rng.choice(FILE_SPECIES)
+        k = rng.choice(ALL_FILE_SPECIES)
         rep = 1 if mode == 0 else rng.randint(1, 4 if mode == 1 else 8)   # runs of equal molecules => blocks with amount > 1
         seq += [k] * rep
     seq = seq[:n]
     if all(k == "W" for k in seq):
         seq[rng.randrange(n)] = "S3"
-    present = [k for k in LOADABLE if k in seq]
+    present = [k for k in ALL_LOADABLE if k in seq]
     rng.shuffle(present)
     return seq, present
 
@@ -855,17 +977,17 @@ def task_guards(maxlen, seed):
                           backend="runtime-contract", expect="refuted", sample=dict(sample, **(extra or {}))))
 
         # scope size (vacuity): closed form for the number of enumerated sequences
-        nseq = sum(1 for _ in sequences(maxlen))
-        ncases = sum(len(orders(s)) for s in sequences(maxlen))
-        want_seq = sum(4 ** n - 1 for n in range(1, maxlen + 1))
+        nseq = sum(1 for _ in sequences(maxlen)) + sum(1 for _ in sequences(maxlen, "B"))
+        ncases = sum(len(orders(s)) for ab in "AB" for s in sequences(maxlen, ab))
+        want_seq = 2 * sum(4 ** n - 1 for n in range(1, maxlen + 1))
         out.append(ob(f"{PROP}/scope/guard.enumeration-complete/seq<={maxlen}",
                       "discharged" if nseq == want_seq and ncases >= nseq else "refuted", kind="guard",
                       engine="smallscope", backend="runtime-contract", expect="discharged",
                       sample={"sequences": nseq, "cases": ncases, "solvent_only_sequences": maxlen}))
         # precondition: signatures distinct, species share no residue kind
         sigs = [(k, len(v)) for k, v in KINDS.items()]
-        kinds_of = {k: set(SPECIES[k][1]) for k in FILE_SPECIES}
-        disjoint = all(not (kinds_of[a] & kinds_of[b]) for a in FILE_SPECIES for b in FILE_SPECIES if a < b)
+        kinds_of = {k: set(SPECIES[k][1]) for k in ALL_FILE_SPECIES}
+        disjoint = all(not (kinds_of[a] & kinds_of[b]) for a in ALL_FILE_SPECIES for b in ALL_FILE_SPECIES if a < b)
         out.append(ob(f"{PROP}/scope/guard.precondition-distinct-signatures",
                       "discharged" if len(set(sigs)) == len(sigs) and disjoint else "refuted", kind="guard",
                       engine="smallscope", backend="runtime-contract", expect="discharged",
@@ -939,12 +1061,26 @@ def tasks(prop, tier, seed):
     t = []
     if tier == "quick":
         maxlen, nparts, nr = 4, 1, 2
+        maxlen_b, nparts_b = 3, 1
+        maxlen_h, nparts_h = 3, 1
     else:
         maxlen, nparts, nr = 6, 6, 16
+        maxlen_b, nparts_b = 5, 2
+        maxlen_h, nparts_h = 5, 4
+    lim = 600.0 if tier == "quick" else 2400.0
     for group, _ in EXH_GROUPS:
         for p in range(nparts):
             t.append((f"exhaustive/seq<={maxlen}/{group}" + (f"/part{p:02d}" if nparts > 1 else ""), task_exhaustive,
-                      (maxlen, group, p, nparts, seed), 600.0 if tier == "quick" else 2400.0))
+                      (maxlen, group, p, nparts, seed), lim))
+    for via in ("add_ftop", "add_molecule_top"):
+        for group, _ in HIST_GROUPS:
+            for p in range(nparts_h):
+                t.append((f"history/{via}/seq<={maxlen_h}/{group}" + (f"/part{p:02d}" if nparts_h > 1 else ""),
+                          task_history, (maxlen_h, via, group, p, nparts_h, seed), lim))
+    for group, _ in EXH_GROUPS:
+        for p in range(nparts_b):
+            t.append((f"restarted-resnr/seq<={maxlen_b}/{group}" + (f"/part{p:02d}" if nparts_b > 1 else ""),
+                      task_exhaustive, (maxlen_b, group, p, nparts_b, seed, "B"), lim))
     t.append(("solvent-only", task_solvent_only, (maxlen, seed), 120.0))
     for p in range(nr):
         t.append((f"random-longer/part{p:02d}", task_random, (tier, p, nr, seed), 300.0 if tier == "quick" else 1200.0))
@@ -962,12 +1098,20 @@ def replay(prop, cex):
             shipped_case(list(cex["order"]), res, index_stride=7)
         else:
             seq, order = list(cex["seq"]), list(cex["order"])
-            bad = [k for k in seq if k not in FILE_SPECIES] + [k for k in order if k not in LOADABLE or k not in seq]
+            bad = ([k for k in seq if k not in ALL_FILE_SPECIES]
+                   + [k for k in order if k not in ALL_LOADABLE or k not in seq])
             if bad or not seq:
                 return {"reproduced": False, "note": f"input outside the scope of the property: {bad}", "inputs": cex}
             files = Files()
             try:
-                run_case(files, seq, order, res, fresh_absent=True)
+                if cex.get("kind") == "history":
+                    def on_stage(n, r):
+                        res.evals.update(r.evals)
+                        for c, m in r.fail.items():
+                            res.fail.setdefault(c, f"after loading {order[:n]} (constructed with {order[:int(cex['split'])]}): {m}")
+                    run_history(files, seq, order, int(cex["split"]), cex.get("via", "add_ftop"), None, on_stage)
+                else:
+                    run_case(files, seq, order, res, fresh_absent=True)
             finally:
                 files.close()
     except Exception as e:
